@@ -20,6 +20,12 @@ What is generated (and measured in `features`):
    modes auto / absolute / relative for static spaces; inside a parametrised tree only
    `absolute`, or targets outside the tree (documented limitation of export_model);
    model-level references;
+ * reference VALUE KINDS (exportvals.py): every type the exporter writes as a source literal at its
+   boundary values, instances of strict subclasses of those types (user classes, enum members,
+   numpy scalars), look-alikes, containers and arrays holding them, importable things - at model
+   level and space level, overridden in derived spaces, copied into ItemSpaces; read by `rd_*`
+   cells in ways that expose the exact type (identity, type name, str/repr/format, arithmetic,
+   methods), int-like ones also as int atoms of the expression grammar;
  * calls: by name, `_space.f`, `Child.f`, `_model.A.f`, through references holding cells /
    spaces / parametrised spaces (`r[e].f()`, `r(e, e).f()`), keyword arguments.
 
@@ -32,6 +38,8 @@ are not generated (they are covered by corpus witnesses, known_findings.json).
 """
 import ast
 import builtins as _bi
+
+from . import exportvals as V
 
 SHADOW_POOL = ["len", "max", "min", "abs", "type", "id", "list", "str", "int", "sorted", "any", "all",
                "round", "pow", "hash", "bin", "ord", "chr", "dict", "set", "zip", "map", "filter",
@@ -127,7 +135,7 @@ class ModelGen:
     def __init__(self, rng, name, profile=None):
         self.rng = rng
         self.name = name
-        self.profile = profile or rng.choice(["mixed", "mixed", "shadow", "items", "inherit", "syntax"])
+        self.profile = profile or rng.choice(["mixed", "mixed", "shadow", "items", "inherit", "syntax", "values"])
         self.features = {}
         self.spaces = []          # SpaceInfo in creation order
         self.grefs = {}           # name -> ref desc
@@ -147,7 +155,7 @@ class ModelGen:
         prof = self.profile
         ntop = rng.randint(1, 3 if prof != "items" else 2) + (1 if prof == "inherit" else 0)
         tops = rng.sample(TOP_SPACES, ntop)
-        p_formula = {"items": 0.7, "mixed": 0.35, "shadow": 0.2, "inherit": 0.2, "syntax": 0.15}[prof]
+        p_formula = {"items": 0.7, "mixed": 0.35, "shadow": 0.2, "inherit": 0.2, "syntax": 0.15, "values": 0.3}[prof]
         for nm in tops:
             s = SpaceInfo((nm,), None)
             self.spaces.append(s)
@@ -157,7 +165,7 @@ class ModelGen:
             if rng.random() < p_formula:
                 self._give_formula(s)
         # inheritance: a space may derive from earlier spaces that are neither ancestors nor descendants
-        p_inh = {"inherit": 0.7, "mixed": 0.3, "shadow": 0.25, "items": 0.15, "syntax": 0.1}[prof]
+        p_inh = {"inherit": 0.7, "mixed": 0.3, "shadow": 0.25, "items": 0.15, "syntax": 0.1, "values": 0.4}[prof]
         for idx, s in enumerate(self.spaces):
             cands = [b for b in self.spaces[:idx] if not self._related(s, b)]
             if cands and rng.random() < p_inh:
@@ -222,7 +230,7 @@ class ModelGen:
 
     def _name_universe(self):
         rng = self.rng
-        p_sh = {"shadow": 0.6, "mixed": 0.3, "items": 0.1, "inherit": 0.2, "syntax": 0.25}[self.profile]
+        p_sh = {"shadow": 0.6, "mixed": 0.3, "items": 0.1, "inherit": 0.2, "syntax": 0.25, "values": 0.15}[self.profile]
         pool_sh = list(SHADOW_POOL)
         rng.shuffle(pool_sh)
         reserved = set(SPACE_PARAMS)
@@ -312,7 +320,12 @@ class ModelGen:
         # fix a type per reference name, model wide
         obj_cells = [(s, n) for s in self.spaces for n in s.visible_cells() if not s.in_param_tree()]
         obj_spaces = [s for s in self.spaces if not s.in_param_tree() or s.formula and s.param_root() is s]
+        p_val = 0.6 if self.profile == "values" else 0.2
+        vkinds = [k for k in V.KINDS if k.random_ok]
         for nm in self.ref_universe:
+            if rng.random() < p_val:
+                self.reftype[nm] = ("val", rng.choice(vkinds).id)
+                continue
             r = rng.random()
             if r < 0.5:
                 self.reftype[nm] = ("lit",)
@@ -332,7 +345,7 @@ class ModelGen:
         shared = None
         # model level
         for nm in self.ref_universe:
-            if rng.random() < 0.3 and self.reftype[nm][0] in ("lit", "pick", "mod"):
+            if rng.random() < 0.3 and self.reftype[nm][0] in ("lit", "pick", "mod", "val"):
                 rd = self._make_ref(None, nm, shared)
                 if rd:
                     self.grefs[nm] = rd
@@ -377,6 +390,13 @@ class ModelGen:
         elif kind[0] == "mod":
             ty, val = ("mod",), {"mod": "math"}
             self.feat("module_ref")
+        elif kind[0] == "val":
+            k = V.BY_ID[kind[1]]
+            ty, val = ("val", k.id), {"kind": k.id, "alt": rng.randrange(len(k.makers))}
+            self.feat("valuekind_ref")
+            self.feat("vk_" + k.id)
+            if s is None:
+                self.feat("valuekind_ref_model_level")
         else:
             target = kind[1]
             if s is not None and (target is s or target in s.ancestors() or s in target.ancestors()):
@@ -433,6 +453,9 @@ class ModelGen:
                 v["seq"].append((nm, ty[1]))
             elif ty[0] == "dict":
                 v["dict"].append((nm, ty[1]))
+            elif ty[0] == "val":
+                if "intatom" in V.BY_ID[ty[1]].traits:
+                    v["int"].append(nm)          # an int SUBCLASS instance wherever an int may stand
             elif ty[0] == "cells":
                 if self.rank[ty[2]] < rank and self.ret_int[ty[2]]:
                     v["calls"].append((None, nm, self.cellsig[ty[2]], "ref_to_cells"))
@@ -498,6 +521,36 @@ class ModelGen:
             for nm in s.own_refs:
                 if nm in ALL_BUILTINS:
                     self.feat("ref_shadowing_builtin")
+        # reader cells for references holding value kinds: read in ways that expose the exact type
+        for s in self.spaces:
+            refs = s.visible_refs(self.grefs)
+            inherited = set(s.visible_cells())
+            for nm, rd in refs.items():
+                if rd["_type"][0] != "val":
+                    continue
+                k = V.BY_ID[rd["_type"][1]]
+                pats = [(sfx, src) for sfx, src in V.readers(k, nm, avoid=self.shadowed | set(SPACE_PARAMS))
+                        if not source_triggers(src, self.cell_universe)]
+                if not pats:
+                    continue
+                # the identity reader mostly; then a few of the kind's own patterns
+                chosen = ([pats[0]] if self.rng.random() < 0.7 else []) + \
+                    self.rng.sample(pats, min(len(pats), self.rng.randint(1, 3)))
+                for sfx, src in chosen:
+                    cn = "rd_%s_%s" % (nm, sfx)
+                    if cn in inherited or cn in s.own_cells:
+                        continue
+                    node = _func_node(src)
+                    a = node.args
+                    self.cellsig[cn] = [[x.arg, None] for x in a.args]
+                    self.ret_int[cn] = False
+                    self.rank[cn] = -1
+                    s.own_cells[cn] = {"name": cn, "src": src, "cached": self.rng.random() < 0.75}
+                    self.feat("valuekind_reader_cells")
+                    if s.in_param_tree():
+                        self.feat("valuekind_read_in_param_tree")
+                    if nm not in s.own_refs:
+                        self.feat("valuekind_read_inherited_or_model_level")
         # probe cells `lambda: name` (what does a name resolve to in this space / instance?)
         for s in self.spaces:
             if not s.in_param_tree() and self.rng.random() < 0.7:
@@ -1039,6 +1092,7 @@ K_PAREN_NAME = "C15-parenthesised-global-name"
 K_SCOPE_IN_DEFAULT = "C15-scope-order-mismatch"
 K_MODEL_OBJREF = "C15-model-level-object-ref"
 K_KEYWORD_GLOBAL = "C15-keyword-named-like-global"
+K_NONFINITE = V.K_NONFINITE
 
 import re as _re
 _PAREN_NAME = _re.compile(r"(?<![\w\)\]])\(\s*[A-Za-z_]\w*\s*\)")
@@ -1146,6 +1200,13 @@ def desc_triggers(desc):
     model_keys = set()
     if any("obj" in r["val"] for r in desc.get("grefs", [])):
         model_keys.add(K_MODEL_OBJREF)
+    # a reference (anywhere: the package is imported as a whole) whose value is a float that `repr`
+    # does not write as a literal (nan, inf, -inf)
+    all_refs = list(desc.get("grefs", [])) + [r for _p, sp in iter_spaces(desc) for r in sp.get("refs", [])]
+    for r in all_refs:
+        k = V.BY_ID.get(r["val"].get("kind")) if isinstance(r.get("val"), dict) else None
+        if k is not None and k.known:
+            model_keys.add(k.known)
 
     def inherited(sp, what, seen=None):
         seen = seen or set()
